@@ -37,6 +37,10 @@ type c10Op struct {
 type c10Case struct {
 	Backend backends.Kind `json:"backend"`
 	Ops     []c10Op       `json:"ops"`
+	// HostStyle: the server runs with the host base "s3.test"; the ops "h-put", "h-get", "h-head",
+	// "h-del" address <bucket>.s3.test with the key alone on the request line, everything else
+	// (the observers included) uses the base itself as Host and so falls back to path-style
+	HostStyle bool `json:"hostStyle,omitempty"`
 }
 
 var c10Hostile = []string{".", "..", "a/../b", "../x", "../bk1/x", "../bk1/a", "../../metadata/bk0/x", "../../metadata/bk1/a-x", "../../buckets2/x", "../../root2/x", "../bk0", "../bk1",
@@ -62,8 +66,12 @@ type c10Env struct {
 	known map[string]map[string]bool
 }
 
-func newC10Env(k backends.Kind) *c10Env {
-	st := backends.Must(k, backends.Options{})
+func newC10Env(k backends.Kind, hostStyle ...bool) *c10Env {
+	opts := backends.Options{}
+	if len(hostStyle) > 0 && hostStyle[0] {
+		opts.HostBases = []string{"s3.test"}
+	}
+	st := backends.Must(k, opts)
 	e := &c10Env{st: st, known: map[string]map[string]bool{}}
 	bs := []string{"bk0", "bk1"}
 	if k.IsSingle() {
@@ -196,6 +204,14 @@ func (e *c10Env) exec(op c10Op) *s3x.Resp {
 	body := []byte(op.Body)
 	st.GuardReset()
 	switch op.K {
+	case "h-put":
+		return s3x.Do(h, &s3x.Req{Method: "PUT", Host: op.B + ".s3.test", Path: "/" + op.Key, Body: body, Header: s3x.H("X-Amz-Meta-Init", "hostile")})
+	case "h-get":
+		return s3x.Do(h, &s3x.Req{Method: "GET", Host: op.B + ".s3.test", Path: "/" + op.Key})
+	case "h-head":
+		return s3x.Do(h, &s3x.Req{Method: "HEAD", Host: op.B + ".s3.test", Path: "/" + op.Key})
+	case "h-del":
+		return s3x.Do(h, &s3x.Req{Method: "DELETE", Host: op.B + ".s3.test", Path: "/" + op.Key})
 	case "put":
 		return s3x.Do(h, &s3x.Req{Method: "PUT", Path: "/" + op.B + "/" + op.Key, Body: body, Header: s3x.H("X-Amz-Meta-Init", "hostile")})
 	case "get":
@@ -292,7 +308,7 @@ func (e *c10Env) step(op c10Op) (ds []disc, accepted bool) {
 		fail("panic", "%s at %s", resp.Panic, resp.PanicSite)
 	}
 	accepted = resp.Panic == "" && resp.Status >= 200 && resp.Status < 300
-	mutating := map[string]bool{"put": true, "del": true, "mdel": true, "copy-to": true, "copy-from": true, "complete": true, "post": true, "api-put": true, "api-del": true, "mkbucket": true, "rmbucket": true, "api-mkbucket": true, "api-rmbucket": true, "api-force-rmbucket": true}[op.K]
+	mutating := map[string]bool{"h-put": true, "h-del": true, "put": true, "del": true, "mdel": true, "copy-to": true, "copy-from": true, "complete": true, "post": true, "api-put": true, "api-del": true, "mkbucket": true, "rmbucket": true, "api-mkbucket": true, "api-rmbucket": true, "api-force-rmbucket": true}[op.K]
 	after := e.snap()
 	if e.st.GuardTripped() {
 		fail("runaway-recursion", "after the operation, listing the store recursed without bound (a fatal stack overflow in production)")
@@ -416,7 +432,7 @@ func (e *c10Env) step(op c10Op) (ds []disc, accepted bool) {
 }
 
 func c10Exec(cs c10Case) (ds []disc, accepted int) {
-	e := newC10Env(cs.Backend)
+	e := newC10Env(cs.Backend, cs.HostStyle)
 	defer e.st.Close()
 	for i, op := range cs.Ops {
 		sd, acc := e.step(op)
@@ -636,6 +652,35 @@ func c10Run(t *testing.T, c *evid.Collector) {
 					}
 					ds, acc := c10Exec(cs)
 					record("framing", cs, ds, acc, "enumerated")
+				}
+			}
+		}
+	}
+	// ---- the same hostile keys addressed virtual-host style (the key alone is the request path)
+	for _, k := range kindsFromEnv([]backends.Kind{backends.Mem, backends.MultiMem}) {
+		ok := false
+		for _, kk := range kinds {
+			ok = ok || kk == k
+		}
+		if !ok {
+			continue
+		}
+		for _, key := range c10Hostile {
+			if key == "" || strings.HasPrefix(key, "/") {
+				continue
+			}
+			for _, opk := range []string{"h-put", "h-get", "h-head", "h-del"} {
+				for _, b := range []string{"bk0", "bk1"} {
+					n++
+					if n%evid.Shards() != evid.Shard() {
+						continue
+					}
+					cs := c10Case{Backend: k, HostStyle: true, Ops: []c10Op{{K: opk, B: b, Key: key, Body: "hostile body"}}}
+					if opk == "h-put" {
+						cs.Ops = append(cs.Ops, c10Op{K: "h-del", B: b, Key: key})
+					}
+					ds, acc := c10Exec(cs)
+					record("framing", cs, ds, acc, "host-style")
 				}
 			}
 		}
